@@ -1605,6 +1605,7 @@ Qed.
 Lemma c19_flags_current :
   c19_f_pc_copies = true /\ c19_f_std_copies = true /\ c19_f_init_copies = true /\
   c19_f_copy_deep = true /\ c19_f_export_deep = true /\ c19_f_scrip_copies = true /\
+  c19_f_scrip_area_copies = true /\ c19_f_esmf_area_copies = true /\
   c19_f_poly_returns_copy = true /\ c19_f_line_returns_copy = true /\ c19_f_gdf_returns_copy = false.
 Proof. repeat split; reflexivity. Qed.
 
